@@ -82,6 +82,12 @@ def run_one(ck, prog):
                 ck.ob("C08.2", f"{p}|lowers-to-mem-symbol|{c}", False, fn=p, site=ctx.site(bb), detail=f"`{c}` lowers to a call of memcpy/memmove/memset/memcmp: inside their own implementation that is infinite recursion")
                 continue
             ok = any(re.match(a, c) for a in ALLOW)
+            if not ok and c.startswith("core::panicking::"):
+                # an assertion that cannot fail (discharged) never reaches the panic machinery
+                sites = [x for x in panics.sites(ctx) if x["bb"] == bb]
+                if sites and all(panics.discharge(ctx, x)[0] for x in sites):
+                    ck.note(f"{p.split('::')[-1]}: contains an assertion that cannot fail ({panics.discharge(ctx, sites[0])[1]})")
+                    continue
             ck.ob("C08.2", f"{p}|allowed-callee|{c}", ok, fn=p, site=ctx.site(bb), detail=f"`{c}` is outside the audited vocabulary of the mem symbols (pointer add/sub/cast/read/write, integer ops, transmute); re-audit before allowing")
         # aggregate copies wider than a word
         for l in fn["locals"]:
@@ -121,6 +127,20 @@ def run_one(ck, prog):
     W = prog.const(M + "WORD_SIZE")
     TH = prog.const(M + "WORD_COPY_THRESHOLD")
     MK = prog.const(M + "WORD_MASK")
+    if MK is None and isinstance(W, int):
+        MK = W - 1          # the mask constant is only a name for WORD_SIZE - 1; `% WORD_SIZE` says the same without it
+
+    def mask_norm(e, depth=0):
+        """x % W with W a power of two is x & (W - 1): one spelling for the matchers below"""
+        if not isinstance(e, tuple) or depth > 12:
+            return e
+        if e[0] == "bin" and e[1] == "Rem" and isinstance(W, int) and fold(e[3]) == W and W & (W - 1) == 0:
+            return ("bin", "BitAnd", mask_norm(e[2], depth + 1), ("const", W - 1, None, "usize"))
+        if e[0] == "bin":
+            return ("bin", e[1], mask_norm(e[2], depth + 1), mask_norm(e[3], depth + 1))
+        if e[0] == "cast":
+            return ("cast", e[1], mask_norm(e[2], depth + 1), e[3])
+        return e
     ck.ob("C08.3", "threshold>=2*word", isinstance(W, int) and isinstance(TH, int) and TH >= 2 * W and MK == W - 1 and W & (W - 1) == 0, detail=f"WORD_SIZE={W} WORD_MASK={MK} WORD_COPY_THRESHOLD={TH}: the head alignment (< WORD_SIZE bytes) must fit inside n")
     for nm, head_kind in (("copy_forward", "neg"), ("copy_backward", "end"), ("set_bytes", "neg")):
         fn = prog.fns.get(M + nm)
@@ -138,9 +158,9 @@ def run_one(ck, prog):
         found = False
         for b in fn["blocks"]:
             for i, s in enumerate(b["stmts"]):
-                if s["k"] == "assign" and s["rv"]["k"] == "binop" and s["rv"]["op"] == "BitAnd":
-                    e = c.prov.rvalue(s["rv"], (b["id"], i))
-                    if fold(e[3]) == MK:
+                if s["k"] == "assign" and s["rv"]["k"] == "binop" and s["rv"]["op"] in ("BitAnd", "Rem"):
+                    e = mask_norm(c.prov.rvalue(s["rv"], (b["id"], i)))
+                    if e[1] == "BitAnd" and fold(e[3]) == MK:
                         lhs = strip_casts(e[2])
                         if head_kind == "neg" and isinstance(lhs, tuple) and lhs[0] == "call" and (lhs[1] or "").endswith("usize>::wrapping_neg") and mentions(lhs, c.prov, lambda z: z[0] in ("param", "var") and z[1] == 1):
                             found = True
@@ -169,6 +189,8 @@ def run_one(ck, prog):
         a = ms.args(bb)
         ck.ob("C08.3", "memset|value-truncated-to-byte", canon(a[0]) == "p1" and canon(a[2]) == "p3" and isinstance(a[1], tuple) and a[1][0] == "cast" and a[1][3] == "u8" and canon(a[1]) == "p2", fn=ms.path, detail="memset must fill with (c as u8) over (s, n)")
     cb = prog.fns.get(M + "compare_bytes")
+    if cb is None and prog.fns.get(M + "memcmp") is not None and any(prog.ctx(prog.fns[M + "memcmp"]).cfg.in_cycle(b) for b in prog.ctx(prog.fns[M + "memcmp"]).cfg.live_blocks()):
+        cb = prog.fns[M + "memcmp"]        # the comparison loop written directly in memcmp (same parameters s1, s2, n)
     if ck.anchor("C08.3", "compare_bytes", cb):
         c = prog.ctx(cb)
         subs = []
